@@ -686,6 +686,42 @@ def case_annot_slices(rng, ctx):
             ctx.log("second_level", a, b)
             for c, d in slice_forms(ctx, a2, b2, on_aseq=False, rng=rng, nsample=6):
                 check_annot_slice(ctx, res, f2, c, d)
+    # the same Annotation object after edits (it has been sliced and asked for its range before): slices see its content
+    # as it is now.  Edits: `+=` with a feature / an annotation, add_feature, del_feature; new features reach beyond the
+    # old location range.
+    cur = list(feats)
+    an.get_location_range() if cur else None
+    for step in range(int(rng.integers(1, 4))):
+        kind = str(rng.choice(["iadd_feature", "iadd_annotation", "add_feature", "del_feature"]))
+        if kind == "del_feature" and not cur:
+            kind = "add_feature"
+        if kind == "del_feature":
+            k = int(rng.integers(len(cur)))
+            ft = cur[k]
+            an.del_feature(mk_feature(ft))
+            cur = [f_ for f_ in cur if not (mk_feature(f_) == mk_feature(ft))]
+        else:
+            span = 6 + int(rng.integers(0, 12))
+            base = (hi + int(rng.integers(-3, 8))) if rng.random() < 0.5 else (lo - span - int(rng.integers(-3, 8)))
+            extra = gen_feats(rng, base, base + span, maxf=2)
+            extra = [e_ for e_ in extra if all(not (mk_feature(e_) == mk_feature(c_)) for c_ in cur)]
+            if not extra:
+                continue
+            if kind == "iadd_feature":
+                for e_ in extra:
+                    an += mk_feature(e_)
+            elif kind == "iadd_annotation":
+                an += Annotation([mk_feature(e_) for e_ in extra])
+            else:
+                for e_ in extra:
+                    an.add_feature(mk_feature(e_))
+            cur = cur + extra
+        ctx.op("annotation_edit_" + kind)
+        ctx.log("edit", kind, feats_json(cur))
+        allpos = [p_ for _, _, locs in cur for l in locs for p_ in (l[0], l[1])]
+        wlo, whi = (min(allpos + [lo]) - 2, max(allpos + [hi]) + 2)
+        for a, b in slice_forms(ctx, wlo, whi, on_aseq=False, rng=rng, nsample=8) + [(lo, hi), (None, None)]:
+            check_annot_slice(ctx, an, cur, a, b)
     ctx.mark_nontrivial(anycut)
 
 
